@@ -104,6 +104,14 @@ func caseList(r *mon.Runner) []mon.CaseSpec {
 		}
 	}
 	rnd := r.Rand()
+	for i := 0; i < r.Pick(6, 120); i++ {
+		q := make([]int, 2+rnd.Intn(5))
+		for j := range q {
+			q[j] = rnd.Intn(2)
+		}
+		q[0], q[1] = 1, 0 // every sequence starts with off, on
+		add(spec{Kind: "wsorigin", Tran: []string{"ws", "wss"}[i%2], Seq: q})
+	}
 	randSeq := func() []int {
 		q := make([]int, 5+rnd.Intn(8))
 		for i := range q {
@@ -160,6 +168,8 @@ func TestC19(t *testing.T) {
 			runResize(c, sp)
 		case "stall":
 			runStall(c, sp)
+		case "wsorigin":
+			runWSOrigin(c, sp)
 		case "unsup":
 			runUnsup(c, sp)
 		case "device":
